@@ -4,6 +4,7 @@ From Coq Require Import List NArith ZArith Arith Bool.
 From Coq Require String.
 From PyTRS Require Import Engine.Regex Gen.Patterns PyRt.Str Gen.Tables Model.Trs Model.Unpack Model.TractParse
      Model.PlssPre Model.PlssParse Model.Config Model.PlssDesc Proofs.C10.Paired Proofs.C09.Tracts.
+From PyTRS Require Import Proofs.C10.Triggers.
 Import ListNotations.
 Import String.StringSyntax.
 Local Open Scope string_scope.
@@ -40,6 +41,16 @@ Theorem C10_error_tract_flagged : forall st ptext layout' tracts unused wflags,
   In E_FLAG_TWPRGE_ERR (e_flags (po_flags (assemble st ptext layout' tracts unused wflags))).
 Proof. exact assemble_error_flagged. Qed.
 Print Assumptions C10_error_tract_flagged.
+
+(* exception, limitation, depth, inclusion and wellbore wording ALWAYS raises the corresponding warning:
+   for each of the 29 trigger wordings of Triggers.TRIGGERS, every text before and after it (any length;
+   a non-word character or the edge of the chunk where the pattern asks for a word boundary), the flag
+   is among the warnings gen_flags_chunk produces for the chunk *)
+Theorem C10_triggers : forall flag w cl cr, In (flag, w, cl, cr) TRIGGERS ->
+  forall u v fl fll, ok_side cl (hd_error (rev u)) -> ok_side cr (hd_error v) ->
+  gen_flags_chunk (u ++ w ++ v) = Ok (fl, fll) -> In flag fl.
+Proof. exact trigger_flag. Qed.
+Print Assumptions C10_triggers.
 
 Definition wflags0 (text config : str) : option (list str * list flagline) :=
   match plssdesc_init_parse text config CNone CNone (s "n") (s "w") with
